@@ -4,6 +4,7 @@ import (
 	"context"
 	"errors"
 	"fmt"
+	"runtime"
 	"sort"
 	"sync"
 	"sync/atomic"
@@ -39,7 +40,7 @@ func TestC17(t *testing.T) {
 	e := LoadEnv("C17")
 	cf := NewCaseFile("C17", "From Cache Require Import Base Invalidator Check.", "check_c17")
 	cf.Rule = "sequential: random SkipInterval in {0,1ns,1s,15s,1h,-1s}, 0..5 callbacks (nil = none), 1..30 calls at " +
-		"fake-clock gaps drawn around the effective interval (boundary ns included); concurrent: 2..64 goroutines on the real clock; " +
+		"fake-clock gaps drawn around the effective interval (boundary ns included); concurrent: 2..64 goroutines on the real clock, every other case 2..12 goroutines released from a spin barrier; " +
 		"non-trivial = at least one accepted and one rejected call; distinct = distinct Gallina term"
 
 	skips := []int64{0, 1, int64(time.Second), int64(15 * time.Second), int64(time.Hour), -int64(time.Second)}
@@ -143,6 +144,12 @@ func TestC17(t *testing.T) {
 
 	for i := 0; i < nConc; i++ {
 		workers := 2 + e.Rng.Intn(63)
+		spin := i%2 == 0 // released from a spin barrier: the callers reach Invalidate within nanoseconds of each other
+
+		if spin {
+			workers = 2 + e.Rng.Intn(11)
+		}
+
 		ncb := 1 + e.Rng.Intn(4)
 		long := e.Rng.Intn(2) == 0
 		skip := time.Hour
@@ -188,16 +195,37 @@ func TestC17(t *testing.T) {
 
 		start := make(chan struct{})
 
+		var (
+			ready int32
+			fire  int32
+		)
+
 		for w := 0; w < workers; w++ {
 			wg.Add(1)
 
 			go func(w int) {
 				defer wg.Done()
-				<-start
+
+				if spin {
+					atomic.AddInt32(&ready, 1)
+
+					for atomic.LoadInt32(&fire) == 0 { //nolint:revive // busy wait on purpose
+					}
+				} else {
+					<-start
+				}
 
 				ctx := context.WithValue(context.Background(), callerKey{}, uint64(w+1))
 				results[w] = iresOf(inv.Invalidate(ctx))
 			}(w)
+		}
+
+		if spin {
+			for atomic.LoadInt32(&ready) != int32(workers) {
+				runtime.Gosched()
+			}
+
+			atomic.StoreInt32(&fire, 1)
 		}
 
 		close(start)
